@@ -106,10 +106,13 @@ fn check_early(res: &Result<bool, PutError>, is_mutable: bool, n: u32, t: &Tally
     }
 }
 
-fn scenario(n: usize) {
+fn scenario(n: usize, fixed_kind: Option<u8>) {
     clock::set(0);
     let mut s = fake_socket(false);
-    let kind: u8 = kani::any();
+    let kind: u8 = match fixed_kind {
+        Some(k) => k,
+        None => kani::any(),
+    };
     kani::assume(kind < 4);
     let is_mutable = kind == 3;
     let mut q = PutQuery::new(request_of(kind), None);
@@ -137,8 +140,12 @@ fn scenario(n: usize) {
     check_final(&late, is_mutable, &t);
     kani::cover!(matches!(late, Ok(true)));
     kani::cover!(matches!(late, Err(PutError::Query(_))));
-    kani::cover!(is_mutable && matches!(late, Err(PutError::Concurrency(_))));
-    kani::cover!(!is_mutable && t.n301 >= 1 && t.acks == 0);
+    if fixed_kind.is_none() || fixed_kind == Some(3) {
+        kani::cover!(is_mutable && matches!(late, Err(PutError::Concurrency(_))));
+    }
+    if fixed_kind != Some(3) {
+        kani::cover!(!is_mutable && t.n301 >= 1 && t.acks == 0);
+    }
     std::mem::forget(early);
     std::mem::forget(late);
     std::mem::forget(q);
@@ -159,7 +166,7 @@ fn scenario(n: usize) {
 #[kani::stub(crate::actor::socket::InflightRequests::update_rtt_estimates, rtt_stub)]
 #[kani::unwind(6)]
 fn c08_o1a_put_result_n1() {
-    scenario(1);
+    scenario(1, None);
 }
 
 //@ ob: C08.O1b
@@ -167,33 +174,69 @@ fn c08_o1a_put_result_n1() {
 //@ cap: 1800
 //@ standins: tracing
 //@ also: C05 C17
-//@ desc: two replicas: same claims as C08.O1a over all event pairs (acks, errors with any codes, losses), including the early-failure majority rule (both replies 301 or both 302 for put_mutable only)
-//@ bounds: n = 2 requests; 4 put kinds; 2 symbolic events + codes; unwind 7
+//@ desc: two replicas, announce_peer: same claims as C08.O1a over all event pairs (acks, errors with any i32 codes incl. 301/302, losses): never a concurrency error, Ok iff an ack arrived
+//@ bounds: n = 2 requests; put kind announce_peer; 2 symbolic events + codes; unwind 7
 //@ stubs: std::time::Instant::now -> symbolic clock; InflightRequests::update_rtt_estimates -> no-op
 //@ functions: PutQuery::{success,error,check,is_done,most_common_error,majority_nodes_rejected_put_mutable}
 #[kani::proof]
 #[kani::stub(std::time::Instant::now, clock::now)]
 #[kani::stub(crate::actor::socket::InflightRequests::update_rtt_estimates, rtt_stub)]
 #[kani::unwind(7)]
-fn c08_o1b_put_result_n2() {
-    scenario(2);
+fn c08_o1b_put_result_n2_announce() {
+    scenario(2, Some(0));
+}
+
+//@ ob: C08.O1m
+//@ tier: quick
+//@ cap: 1800
+//@ standins: tracing
+//@ also: C05 C17
+//@ desc: two replicas, put_mutable: same claims, including the early-failure majority rule (threshold 2 of 2: both replies 301, or both 302, fail the put before expiry; one does not)
+//@ bounds: n = 2 requests; put kind put_mutable; 2 symbolic events + codes; unwind 7
+//@ stubs: std::time::Instant::now -> symbolic clock; InflightRequests::update_rtt_estimates -> no-op
+//@ functions: PutQuery::{success,error,check,is_done,most_common_error,majority_nodes_rejected_put_mutable}
+#[kani::proof]
+#[kani::stub(std::time::Instant::now, clock::now)]
+#[kani::stub(crate::actor::socket::InflightRequests::update_rtt_estimates, rtt_stub)]
+#[kani::unwind(7)]
+fn c08_o1m_put_result_n2_mutable() {
+    scenario(2, Some(3));
 }
 
 //@ ob: C08.O1c
 //@ tier: thorough
 //@ cap: 2700
+//@ mem: 28
 //@ standins: tracing
 //@ also: C05 C17
-//@ desc: three replicas: same claims; the majority threshold is 2 of 3 (a single 301 with two unanswered live requests does not fail the put; two do)
-//@ bounds: n = 3 requests; 4 put kinds; 3 symbolic events + codes; unwind 8
+//@ desc: three replicas, put_mutable: same claims; the majority threshold is 2 of 3 (a single 301 with two unanswered live requests does not fail the put; two do)
+//@ bounds: n = 3 requests; put_mutable; 3 symbolic events + codes; unwind 8
 //@ stubs: std::time::Instant::now -> symbolic clock; InflightRequests::update_rtt_estimates -> no-op
 //@ functions: PutQuery::{success,error,check,is_done,most_common_error,majority_nodes_rejected_put_mutable}
 #[kani::proof]
 #[kani::stub(std::time::Instant::now, clock::now)]
 #[kani::stub(crate::actor::socket::InflightRequests::update_rtt_estimates, rtt_stub)]
 #[kani::unwind(8)]
-fn c08_o1c_put_result_n3() {
-    scenario(3);
+fn c08_o1c_put_result_n3_mutable() {
+    scenario(3, Some(3));
+}
+
+//@ ob: C08.O1d
+//@ tier: thorough
+//@ cap: 2700
+//@ mem: 28
+//@ standins: tracing
+//@ also: C05 C17
+//@ desc: three replicas, put_immutable: never a concurrency error whatever codes arrive
+//@ bounds: n = 3 requests; put_immutable; 3 symbolic events + codes; unwind 8
+//@ stubs: std::time::Instant::now -> symbolic clock; InflightRequests::update_rtt_estimates -> no-op
+//@ functions: PutQuery::{success,error,check}
+#[kani::proof]
+#[kani::stub(std::time::Instant::now, clock::now)]
+#[kani::stub(crate::actor::socket::InflightRequests::update_rtt_estimates, rtt_stub)]
+#[kani::unwind(8)]
+fn c08_o1d_put_result_n3_immutable() {
+    scenario(3, Some(2));
 }
 
 fn tok_node(i: u8, has: bool, tok: [u8; 4]) -> Node {
@@ -274,13 +317,14 @@ fn c08_o3_start_one_request_per_token() {
 //@ standins: tracing
 //@ also: C08
 //@ desc: counters do not wrap: 256 acknowledgements (255 closest + extra nodes) and 256 identical error replies are counted without overflow, and the put still reports Ok
-//@ bounds: concrete 256 + 256 events on one query; unwind 258
+//@ bounds: concrete 256 + 256 events on one query; harness loops unwound 258 times, every other loop 6
 //@ stubs: std::time::Instant::now -> symbolic clock; InflightRequests::update_rtt_estimates -> no-op
 //@ functions: PutQuery::{success,error,check}
+//@ unwindset: kani_h::c05_o4a_counters_256 = 258
 #[kani::proof]
 #[kani::stub(std::time::Instant::now, clock::now)]
 #[kani::stub(crate::actor::socket::InflightRequests::update_rtt_estimates, rtt_stub)]
-#[kani::unwind(258)]
+#[kani::unwind(6)]
 fn c05_o4a_counters_256() {
     clock::set(0);
     let mut s = fake_socket(false);
